@@ -3,7 +3,8 @@ import os, json, time, importlib, traceback, re
 from facts import AnchorLost
 
 VERIF = os.path.dirname(os.path.dirname(os.path.abspath(__file__)))
-EVID = os.path.join(VERIF, 'evidence')
+# VERIF_EVIDENCE_DIR: used by the seed matrix / refactoring trials (runs on scratch copies must not overwrite the evidence of /repo)
+EVID = os.environ.get('VERIF_EVIDENCE_DIR') or os.path.join(VERIF, 'evidence')
 _INL = re.compile(r'::\{inl#\d+\}')
 
 
